@@ -160,9 +160,11 @@ func runC06SchedChild(c *vx.Ctx) {
 			out.Violation, out.Schedule = "deadlock", choices
 			return false
 		}
+		if n := strings.Count(fp, "del:"); n > out.Trimmed {
+			out.Trimmed = n
+		}
 		if ref == "" {
 			ref = fp
-			out.Trimmed = strings.Count(fp, "del:")
 			for _, pt := range sc.Points {
 				out.Sample = append(out.Sample, pt.Ops[pt.Chosen])
 			}
@@ -283,7 +285,9 @@ func c06Sched(c *vx.Ctx) {
 	if !res.Unbounded {
 		p.Incomplete(fmt.Sprintf("unbounded exploration capped; complete up to %d preemptions", res.Bound))
 	}
-	if res.MaxThreads < 4 || res.Trimmed < 6 {
+	// the vacuity guard speaks for runs without a violation: a schedule in which the spawner does not
+	// wait for the trimmers at all trims nothing - that IS the schedule dependence being reported
+	if res.Violation == "" && (res.MaxThreads < 4 || res.Trimmed < 6) {
 		c.HarnessError(fmt.Sprintf("scheduler scenario is vacuous: %d threads, %d trimmed outputs", res.MaxThreads, res.Trimmed))
 		return
 	}
